@@ -37,12 +37,19 @@ func main() {
 	case "controls":
 		os.Exit(cmdControls(os.Args[2:]))
 	case "freeze-names":
-		p, err := Load(LoadOpts{Root: envOr("KVET_REPO", "/repo")})
-		if err != nil {
-			fmt.Fprintln(os.Stderr, "kvet: load failed:", err)
-			os.Exit(2)
+		// the names and the function list of the pinned tree, under every build configuration the checks load
+		all := map[string]frozenFn{}
+		for _, tags := range []string{"deadlock", "gofuzz", ""} {
+			p, err := Load(LoadOpts{Root: envOr("KVET_REPO", "/repo"), NoInline: true, Tags: tags})
+			if err != nil {
+				fmt.Fprintln(os.Stderr, "kvet: load failed:", err)
+				os.Exit(2)
+			}
+			for k, v := range freezeNames(p) {
+				all[k] = v
+			}
 		}
-		b, _ := json.Marshal(freezeNames(p))
+		b, _ := json.Marshal(all)
 		out := "names.json"
 		if len(os.Args) > 2 {
 			out = os.Args[2]
